@@ -147,6 +147,7 @@ ScanQ(i, esc, pre, fm, named) ==
   ELSE IF fm # "" /\ c = "}" THEN
        IF named THEN ScanQ(i + 1, FALSE, pre, fm, FALSE)
        ELSE IF C(i + 1) = "}" THEN ScanQ(i + 2, FALSE, pre, fm, named)
+       ELSE IF C(i + 1) = "" THEN [st |-> "eof", i |-> i + 1, why |-> "eof"]   \* may still become "}}"
        ELSE [st |-> "lex", i |-> i + 1, why |-> "single }"]
   ELSE ScanQ(i + 1, FALSE, pre, fm, named)
 
@@ -165,6 +166,7 @@ ScanB(i, delim, k, fm) ==
        ELSE [st |-> "ok", i |-> i + 1, why |-> "field"]
   ELSE IF fm # "" /\ c = "}" THEN
        IF C(i + 1) = "}" THEN ScanB(i + 2, delim, 0, fm)
+       ELSE IF C(i + 1) = "" THEN [st |-> "eof", i |-> i + 1, why |-> "eof"]
        ELSE [st |-> "lex", i |-> i + 1, why |-> "single }"]
   ELSE IF k >= 1 /\ k <= Len(delim) /\ c = delim[k] THEN ScanB(i + 1, delim, k + 1, fm)
   ELSE ScanB(i + 1, delim, 0, fm)
@@ -183,18 +185,18 @@ SeqUntil(i, closer, acc) ==
   ELSE IF closer = "" /\ C(j) = "" THEN [st |-> "ok", i |-> j, ch |-> acc]
   ELSE LET r == TryParse(j) IN
        IF r.st = "ok" THEN SeqUntil(r.i, closer, Append(acc, r.m))
-       ELSE IF r.st = "none" THEN SeqUntil(r.i, closer, IF r.m.t = "discard" THEN Append(acc, r.m) ELSE acc)
+       ELSE IF r.st = "none" THEN SeqUntil(r.i, closer, IF r.m.t \in {"discard", "comment"} THEN Append(acc, r.m) ELSE acc)
        ELSE [st |-> r.st, i |-> r.i, ch |-> acc]
 \* discarded forms are kept while parsing (their spans matter for the truncation
 \* law) and removed from the result
 RECURSIVE Strip(_), StripM(_)
 StripM(m) == [m EXCEPT !.ch = Strip(m.ch)]
 Strip(ms) == IF ms = <<>> THEN <<>>
-             ELSE IF Head(ms).t = "discard" THEN Strip(Tail(ms))
+             ELSE IF Head(ms).t \in {"discard", "comment"} THEN Strip(Tail(ms))
              ELSE <<StripM(Head(ms))>> \o Strip(Tail(ms))
 RECURSIVE Ghosts(_)
 Ghosts(ms) == IF ms = <<>> THEN {}
-              ELSE (IF Head(ms).t = "discard" THEN {Head(ms)} ELSE Ghosts(Head(ms).ch)) \cup Ghosts(Tail(ms))
+              ELSE (IF Head(ms).t \in {"discard", "comment"} THEN {Head(ms)} ELSE Ghosts(Head(ms).ch)) \cup Ghosts(Tail(ms))
 
 \* the components of an f-string whose literal text starts at i.
 \* kind "q": closed by a double quote; "b": by ]delim]; "s": a format spec closed by "}"
@@ -247,9 +249,9 @@ Field(i, pre, fm) ==
                [st |-> "ok", i |-> j3 + 1,
                 ch |-> dbgc \o <<M("fcomp", <<>>, IF dbg /\ ~conv THEN <<"r">> ELSE cv, <<form>>, <<0, 0>>)>>]
           ELSE IF C(j3) = "" THEN
-               \* the text ends inside the field: as implemented this is reported as
-               \* "trailing junk" (lex); the property (C19) wants "eof" -- see Truncation
-               [st |-> "lex-at-eof", i |-> j3, ch |-> <<>>]
+               \* the text ends inside the field: premature end of input (before the fix
+               \* for C19 the implementation reported "trailing junk", a LexException)
+               [st |-> "eof", i |-> j3, ch |-> <<>>]
           ELSE [st |-> "lex", i |-> j3 + 1, ch |-> <<>>]
 
 \* a "..." literal with the given prefix; a = index of the first character of
@@ -302,7 +304,8 @@ TryParse(i) ==
     [] c = ";" ->
          LET RECURSIVE Eol(_)
              Eol(k) == IF C(k) = "" THEN k ELSE IF C(k) = "\n" THEN k + 1 ELSE Eol(k + 1)
-         IN Fail("none", Eol(a + 1))
+             e == Eol(a + 1)
+         IN R("none", e, M("comment", <<>>, <<>>, <<>>, <<a, e - 1>>))
     [] c = ":" ->
          LET e == IdentEnd(a + 1)
              s == Sub(a + 1, e - 1)
@@ -351,6 +354,6 @@ TryParse(i) ==
 \* hy.read_many: all forms, or the first error
 ReadAll ==
   LET r == SeqUntil(1, "", <<>>) IN
-  [st |-> IF r.st = "lex-at-eof" THEN "lex" ELSE r.st, ch |-> IF r.st = "ok" THEN Strip(r.ch) ELSE <<>>,
+  [st |-> r.st, ch |-> IF r.st = "ok" THEN Strip(r.ch) ELSE <<>>,
    raw |-> r.st, ghosts |-> IF r.st = "ok" THEN Ghosts(r.ch) ELSE {}]
 =============================================================================
